@@ -610,7 +610,35 @@ func (c *SpecCtx) call(e *ast.CallExpr) *Val {
 					return boolV(Eq(v.Tag, IntLit(id)))
 				}
 			}
+			// "*pkgname.Type" or "pkgname.Type": resolve through the packages visible from here
+			ptr := strings.HasPrefix(name, "*")
+			bare := strings.TrimPrefix(name, "*")
+			if i := strings.LastIndex(bare, "."); i > 0 {
+				pn, tn := bare[:i], bare[i+1:]
+				if j := strings.LastIndex(pn, "/"); j >= 0 {
+					pn = pn[j+1:]
+				}
+				if p := c.importedPkg(pn); p != nil {
+					if obj, ok := p.Scope().Lookup(tn).(*types.TypeName); ok {
+						var t types.Type = obj.Type()
+						if ptr {
+							t = types.NewPointer(t)
+						}
+						return boolV(Eq(v.Tag, IntLit(x.typeID(t))))
+					}
+				}
+			}
 			c.fail("unknown type %q in typeis", name)
+		case "str":
+			// str(b): the string made of the bytes of slice b (what string(b) computes)
+			v := c.deref(c.eval(e.Args[0]))
+			if v.K == kScalar && v.T.sort == SStr {
+				return v
+			}
+			if v.K != kSlice {
+				c.fail("str() of a value that is neither a byte slice nor a string")
+			}
+			return x.bytesToStringIn(c.st, v, v.Typ.Underlying().(*types.Slice), types.Typ[types.String], c.heap)
 		case "now":
 			// now(): the ghost instant (ns since the epoch) that time.Now() returns on this path
 			return intV(x.nowTerm(c.st))
